@@ -393,7 +393,7 @@ pub fn run_c12(ctx: &Ctx) -> i32 {
             ],
             exhaustive: false,
             extra,
-            min_nontrivial: 500,
+            min_nontrivial: 50,
         },
     )
 }
@@ -500,8 +500,16 @@ pub fn run_c13(ctx: &Ctx) -> i32 {
                     control_must_differ = true; // the import becomes unresolved (Warning) at least
                 }
                 _ => {
-                    label = "add_unrelated_garbage_file";
-                    files.push(("extra".into(), mutate::token_soup(rng, 15)));
+                    if rng.chance(1, 2) {
+                        label = "add_unrelated_garbage_file";
+                        files.push(("extra".into(), mutate::token_soup(rng, 15)));
+                    } else {
+                        // a second copy of an existing file under a new id: same key, same kind - no fact changes
+                        label = "duplicate_a_file_under_a_new_id";
+                        let src = rng.below(files.len());
+                        let text = files[src].1.clone();
+                        files.push(("extra_copy".into(), text));
+                    }
                 }
             }
             st.inc(&format!("perturbation.{label}"));
@@ -549,7 +557,7 @@ pub fn run_c13(ctx: &Ctx) -> i32 {
             assumptions: vec!["diagnostic order is C11's matter (multiset comparison)".into(), "an added unrelated file lives in a package no generated import can name".into()],
             exhaustive: false,
             extra: Default::default(),
-            min_nontrivial: 300,
+            min_nontrivial: 30,
         },
     )
 }
